@@ -1879,6 +1879,8 @@ class Engine:
                 self.path.__dict__.setdefault("generic_iterations", []).append(str(node.lineno) if node is not None and hasattr(node, "lineno") else "?")
                 return [it.at(self, i)]
             raise Unsupported("iteration over a sequence of symbolic length (needs invariant / comprehension form)", node)
+        if v is None or isinstance(v, (int, float, bool)):
+            raise PyRaise(TypeError, (f"'{type(v).__name__}' object is not iterable",))
         raise Unsupported(f"iteration over {type(v).__name__}", node)
 
     def known_length(self, v):
